@@ -52,8 +52,10 @@ static int server_sort_cb(const void *a, const void *b)
 }
 
 typedef struct { unsigned a; unsigned short udp, tcp; } key_t3;
-static key_t3 before[NS > 0 ? NS : 1], after[4];
-static size_t nbefore, nafter;
+static key_t3 before[NS > 0 ? NS : 1], after[4], want[4];
+static size_t nbefore, nafter, nwant;
+static int    user;
+static unsigned int optmask0;
 
 static unsigned short arb_port(int allow0)
 {
@@ -118,7 +120,25 @@ void harness(void)
     VP_ASSUME(ares_llist_insert_last(cfg, c) != NULL);
   }
 
+#ifdef C16_LISTEQ
+  /* C16: the configuration about to be applied, ports resolved, duplicates dropped, in order */
+  {
+    ares_llist_node_t *cn;
+    for (cn = ares_llist_node_first(cfg); cn != NULL; cn = ares_llist_node_next(cn)) {
+      const ares_sconfig_t *c = ares_llist_node_val(cn);
+      key_t3                k;
+      k.a   = ((const unsigned char *)&c->addr.addr.addr4)[3];
+      k.udp = c->udp_port ? c->udp_port : (ch.udp_port ? ch.udp_port : 53);
+      k.tcp = c->tcp_port ? c->tcp_port : (ch.tcp_port ? ch.tcp_port : 53);
+      if (!in_set(want, nwant, &k)) want[nwant++] = k;
+    }
+    user = vp_bool();
+    optmask0 = ch.optmask = vp_bool() ? ARES_OPT_SERVERS : 0;
+  }
+  st = ares_servers_update(&ch, cfg, user ? ARES_TRUE : ARES_FALSE);
+#else
   st = ares_servers_update(&ch, cfg, vp_bool() ? ARES_TRUE : ARES_FALSE);
+#endif
   VP_ASSERT(st == ARES_SUCCESS, "server update succeeds (no allocation failure)");
 
   for (n = ares_slist_node_first(ch.servers); n != NULL; n = ares_slist_node_next(n)) {
@@ -129,6 +149,21 @@ void harness(void)
     after[nafter].tcp = s->tcp_port;
     nafter++;
   }
+#ifdef C16_LISTEQ
+  /* C16: applying a server list yields exactly that list - same servers (address and BOTH ports), same order, nothing
+   * left over from the previous list - and an explicitly supplied list is remembered as the user's */
+  if (!(ch.flags & ARES_FLAG_PRIMARY)) {
+    VP_ASSERT(nafter == nwant, "the channel holds exactly the servers of the applied list (none kept from before, none duplicated)");
+    for (i = 0; i < nwant && i < nafter; i++)
+      VP_ASSERT(after[i].a == want[i].a && after[i].udp == want[i].udp && after[i].tcp == want[i].tcp,
+                "same ordered server list: address, UDP port and TCP port of every entry");
+  } else {
+    VP_ASSERT(nafter == (nwant ? 1 : 0) && (nwant == 0 || (after[0].a == want[0].a && after[0].udp == want[0].udp && after[0].tcp == want[0].tcp)),
+              "PRIMARY keeps only the first configured server");
+  }
+  if (user) VP_ASSERT(ch.optmask & ARES_OPT_SERVERS, "an explicitly supplied server list is recorded as user-specified (even when identical to the current one)");
+  else VP_ASSERT((ch.optmask & ARES_OPT_SERVERS) == (optmask0 & ARES_OPT_SERVERS), "a system-supplied list does not change the user-specified mark");
+#endif
   for (i = 0; i < nbefore; i++)
     if (!in_set(after, nafter, &before[i]))
       set_changed = 1;
